@@ -10,9 +10,12 @@ package main
 // instances, in this process or in a worker process (family `replay_worker`).
 
 import (
+	"crypto/sha256"
+	"encoding/binary"
 	"encoding/hex"
 	"encoding/json"
 	"fmt"
+	"math"
 	"math/rand"
 	"os"
 	"path/filepath"
@@ -30,6 +33,7 @@ import (
 	"github.com/tendermint/tendermint/libs/log"
 	tmproto "github.com/tendermint/tendermint/proto/tendermint/types"
 	dbm "github.com/tendermint/tm-db"
+	syscpu "golang.org/x/sys/cpu"
 )
 
 const chainID = "sifverif-1"
@@ -71,6 +75,9 @@ type BlockObs struct {
 }
 
 type Exec struct {
+	// what this process's CPU-dependent math looks like: digest of math.Exp / math.FMA-sensitive results over fixed
+	// arguments, and the FMA / AVX2 flags the Go runtime reports (GODEBUG=cpu.* of the worker already applied)
+	CPUProbe string     `json:"cpu_probe,omitempty"`
 	InitHash string     `json:"init_hash"` // app hash after InitChain+Commit of genesis (height InitialHeight-1 … none); "" if not committed
 	Blocks   []BlockObs `json:"blocks"`
 	Panic    string     `json:"panic,omitempty"`
@@ -270,6 +277,22 @@ func ExecuteMode(spec *Spec, mode int) (ex Exec) {
 	return ex
 }
 
+// cpuProbe: "fma=<bool>,avx2=<bool>,exp=<digest of math.Exp over 4000 fixed arguments>"
+func cpuProbe() string {
+	h := sha256.New()
+	x := -0.000123
+	for i := 0; i < 4000; i++ {
+		x = x*1.0173 - 0.00031*float64(i%7)
+		if x < -700 {
+			x = -0.000377
+		}
+		var b [8]byte
+		binary.BigEndian.PutUint64(b[:], math.Float64bits(math.Exp(x)))
+		h.Write(b[:])
+	}
+	return fmt.Sprintf("fma=%t,avx2=%t,exp=%x", syscpu.X86.HasFMA, syscpu.X86.HasAVX2, h.Sum(nil)[:6])
+}
+
 // ---- accounts and signing ----------------------------------------------------------------
 
 type Acct struct {
@@ -330,6 +353,7 @@ func init() {
 			}
 		}
 		ex := ExecuteMode(&spec, n) // -n carries the mode
+		ex.CPUProbe = cpuProbe()
 		eb, _ := json.Marshal(ex)
 		if err := os.WriteFile(filepath.Join(argAfter("-out"), "exec.json"), eb, 0o644); err != nil {
 			panic(err)
